@@ -92,6 +92,11 @@ class EFLRSet(LogicalRecord):
 
         self._eflr_item_list = [item for item in self._eflr_item_list if item is not child]
 
+        if not self._eflr_item_list and self.sets_of_same_type and self.sets_of_same_type.get(self.set_name) is self:
+            # a set which the failed creation has left empty is withdrawn as well; staying behind, it would come before
+            # the sets of its type made later (e.g. as the ORIGIN set whose first object is the defining origin)
+            del self.sets_of_same_type[self.set_name]
+
     def get_all_eflr_items(self) -> list[EFLRItem]:
         """Return a list of all EFLRItem instances registered with this EFLRSet instance."""
 
